@@ -552,7 +552,11 @@ def run_timer(cfg, calls):
     clock = FakeClock(0)
     res, keys = [], []
     with installed(clock):
-        T = su.Timer(labels=to_arg(cfg["init"], cfg.get("init_tuple", False)), default_label=cfg["dflt"], all_label=cfg["all"])
+        if cfg.get("ctor_defaults"):
+            # default_label / all_label left to the constructor's defaults (documented: "main", "all")
+            T = su.Timer(labels=to_arg(cfg["init"], cfg.get("init_tuple", False)))
+        else:
+            T = su.Timer(labels=to_arg(cfg["init"], cfg.get("init_tuple", False)), default_label=cfg["dflt"], all_label=cfg["all"])
         for c in calls:
             clock.now = c["t"] if isinstance(c["t"], float) else int(c["t"])
             arg = to_arg(c.get("arg"), c.get("tuple", False))
@@ -567,7 +571,10 @@ def run_timer(cfg, calls):
                     T.reset(arg) if not c.get("noarg") else T.reset()
                     r = 0
                 elif c["op"] == "elapsed":
-                    if c.get("via_ctx"):
+                    if c.get("nototal"):
+                        # `total` left to the default of the signature (documented: True)
+                        v = T.elapsed(arg) if not c.get("noarg") else T.elapsed()
+                    elif c.get("via_ctx"):
                         v = su.ContextTimer(T, arg).elapsed(total=c["total"])
                     else:
                         v = T.elapsed(arg, total=c["total"]) if not c.get("noarg") else T.elapsed(total=c["total"])
